@@ -1,0 +1,7 @@
+//go:build !verif
+
+package stackless
+
+// verifQueueFull marks the queue-overflow branch for the verification harness
+// (build tag "verif"); without the tag it compiles to nothing.
+func verifQueueFull() {}
